@@ -466,16 +466,16 @@ def nontrivial(case, out):
 
 
 PARTIAL = ('the round trip parse (render cs t) = t is PROVED for ALL well-formed trees (wf_resource, all text valid UTF-8) and ALL layouts, under ONE extra '
-           'premise: the last line of every comment contains a non-space byte (comments_end_ok). That premise excludes the shape of the known '
-           'finding D7 (a comment whose last line is empty, at the end of input without a final line end, parses to a comment with one line '
-           'fewer) and, more than necessary, whitespace-only last comment lines in harmless positions. The unrestricted statement is refuted '
-           'on the current tree by D7 (theorem C02_roundtrip_statement_refuted_by_D7). Adequacy of Render.v w.r.t. the Fluent EBNF is trusted.')
+           'premise (last_comment_ok): if the LAST entry of the tree is a stand-alone comment, its last line is not empty. That premise is exactly '
+           'the tree shape of the known finding D7 (a comment whose last line is empty, at the end of input without a final line end, parses to a '
+           'comment with one line fewer); comments ending in empty or whitespace-only lines anywhere else are covered. The unrestricted statement '
+           'is refuted on the current tree by D7 (theorem C02_roundtrip_statement_refuted_by_D7). Adequacy of Render.v w.r.t. the Fluent EBNF is trusted.')
 
 MANIFEST = {
     'text': 'The Fluent grammar is formalised as a printer with layout choices (Render.v: render, wf_resource); the property is the '
             'round trip parse (render cs t) = t for all well-formed t and all layouts cs. PROVED in Rocq for every well-formed tree '
             '(comments, attributes, multi-line patterns with the dedent rule, nested placeables, selects, call arguments of any nesting '
-            'depth) and every layout, with the single extra premise comments_end_ok (C02_roundtrip_wellformed_partial); layout '
+            'depth) and every layout, with the single extra premise last_comment_ok = the tree is not of the shape of D7 (C02_roundtrip_wellformed_partial); layout '
             'independence as a corollary. On every run the implementation is also tested directly against the extracted formal printer '
             '(random trees x random layouts, systematic per-construct layouts) and against the reference JSON trees of the repo fixtures; '
             'the model parser is tied to the real one by the correspondence check.',
